@@ -940,7 +940,16 @@ fn s_methods_1d(ctx: &mut Ctx, cap: Duration) {
       if let (Res::Val(vg), Res::Val(vc)) = (rg, rc) {
         let scg = g.scale(a, b);
         let allow_g = allowance1(&m, &g, a, b, eg);
-        let budget = 1e-12 * (al.norm() * sc + be.norm() * scg) + 2. * (al.norm() * allow + be.norm() * allow_g);
+        // the fixed rules are linear exactly (up to rounding); for the tolerance-driven ones each of the three
+        // integrals is within its own requested tolerance
+        let sc_comb = al.norm() * sc + be.norm() * scg;
+        let budget = 1e-12 * sc_comb
+          + match m {
+            Integrator::AdaptiveSimpson { tolerance, .. } | Integrator::GaussKonrod { tolerance, .. } | Integrator::ClenshawCurtis { tolerance } => {
+              tolerance * sc_comb.max(1.) + al.norm() * allow + be.norm() * allow_g
+            }
+            _ => 0.,
+          };
         let okl = (vc - (al * v + be * vg)).norm() <= budget;
         ctx.s(
           "C12.linear",
